@@ -66,6 +66,29 @@ func program(name, server string) (setup, burst [][]byte, files map[string]strin
 	case "reads6": // more parallel requests in flight than there are workers (at W=2): responses pile up behind a slow first one
 		setup = [][]byte{mustPkt(&sshFxpOpenPacket{ID: 1, Path: nm("f"), Pflags: sshFxfRead})}
 		burst = [][]byte{rd(10, "1", 0, 2), rd(11, "1", 2, 2), rd(12, "1", 4, 2), rd(13, "1", 6, 2), rd(14, "1", 8, 2), rd(15, "1", 10, 2)}
+	case "reads12": // as reads6 with enough requests to fill every queue of the packet manager at W=2 (4*W held responses)
+		setup = [][]byte{mustPkt(&sshFxpOpenPacket{ID: 1, Path: nm("f"), Pflags: sshFxfRead})}
+		for i := 0; i < 12; i++ {
+			burst = append(burst, rd(uint32(10+i), "1", i, 2))
+		}
+	case "longlen": // READ requests asking for more than the server's maximum payload (and more than a frame can carry): answered with what the server is willing to send
+		big := make([]byte, 100000)
+		for i := range big {
+			big[i] = byte('a' + i%23)
+		}
+		files[nm("f")] = string(big)
+		setup = [][]byte{mustPkt(&sshFxpOpenPacket{ID: 1, Path: nm("f"), Pflags: sshFxfRead})}
+		burst = [][]byte{rd(10, "1", 1000, 65536), mustPkt(&sshFxpFstatPacket{ID: 11, Handle: "1"}), rd(12, "1", 60000, 65536), rd(13, "1", 0, 300000), rd(14, "1", 5, 1<<20),
+			rd(15, "1", 0, 32768), mustPkt(&sshFxpRealpathPacket{ID: 16, Path: "/p/../q"}), mustPkt(&sshFxpClosePacket{ID: 17, Handle: "1"})}
+	case "twodirs": // two directory handles listed in an interleaved fashion: each reply must hold its own directory's entries
+		setup = [][]byte{mustPkt(&sshFxpOpendirPacket{ID: 1, Path: nm("da")}), mustPkt(&sshFxpOpendirPacket{ID: 2, Path: nm("db")})}
+		burst = [][]byte{mustPkt(&sshFxpReaddirPacket{ID: 10, Handle: "1"}), mustPkt(&sshFxpReaddirPacket{ID: 11, Handle: "2"}), mustPkt(&sshFxpStatPacket{ID: 12, Path: nm("f")}),
+			mustPkt(&sshFxpReaddirPacket{ID: 13, Handle: "1"}), mustPkt(&sshFxpReaddirPacket{ID: 14, Handle: "2"}),
+			mustPkt(&sshFxpClosePacket{ID: 15, Handle: "1"}), mustPkt(&sshFxpClosePacket{ID: 16, Handle: "2"})}
+		for i := 0; i < 3; i++ {
+			files[nm(fmt.Sprintf("da/alpha-%d", i))] = "a"
+			files[nm(fmt.Sprintf("db/bravo-%d", i))] = "bb"
+		}
 	case "bigread": // servers configured with a maximum payload above the 256 KiB frame limit: replies larger than a frame
 		big := make([]byte, 400000)
 		for i := range big {
@@ -173,6 +196,10 @@ func describeClash(a, b int64) string {
 	}
 	return "a page is lent to two requests at once"
 }
+
+// progDeterministic: programs whose response bytes are the same under every schedule (no read races a write, listings of
+// directories nobody changes); their responses are compared byte for byte with a reference run in C02 as well.
+var progDeterministic = map[string]bool{"twodirs": true, "reads6": true, "reads12": true, "longlen": true, "pathkeep": true, "bigread": true}
 
 type progOpts struct {
 	readOnly     bool
@@ -326,7 +353,8 @@ func runProgs(c *reg.Ctx, prop string, alloc, compare bool) *reg.Result {
 			break
 		}
 		o := progOpts{server: server, name: name, alloc: alloc, quiesce: alloc, readOnly: name == "romix", maxTx: uint32(c.ArgInt("maxtx", 0)), txFirst: c.Arg("txfirst", "0") == "1"}
-		if compare {
+		if compare || progDeterministic[name] {
+			// the expected response bytes do not depend on the schedule: compared with a reference run (default schedule, no allocator)
 			o.ref = progReference(server, name, o.maxTx)
 		}
 		r := explore.Run(explore.Config{Prop: prop, Strategy: c.Arg("strategy", "db"), Bound: c.ArgInt("bound", 2), Ctx: c, Label: c.Part}, progScenario(o, prop))
@@ -396,6 +424,9 @@ func init() {
 					pj("C02/sched", "rs W=2 six reads db4", "instr-w2", "rs", "reads6", 4, 600, false),
 					pj("C02/sched", "rs W=3 six reads db3", "instr-w3", "rs", "reads6", 3, 600, false),
 					pj("C02/sched", "os W=2 six reads db3", "instr-w2", "os", "reads6", 3, 600, false),
+					pj("C02/sched", "rs W=2 twelve reads db3", "instr-w2", "rs", "reads12", 3, 600, false),
+					pj("C02/sched", "rs W=2 over-long read requests, two listings db3", "instr-w2", "rs", "longlen+twodirs", 3, 600, false),
+					pj("C02/sched", "os W=2 over-long read requests, two listings db3", "instr-w2", "os", "longlen+twodirs", 3, 600, false),
 				}
 			} else {
 				js = []reg.Job{
@@ -406,6 +437,9 @@ func init() {
 					pj("C02/sched", "rs W=2 alloc db2", "instr-w2", "rs", "rwmix+cmdmix+rsplit", 2, 100, true),
 					pj("C02/sched", "rs W=2 six reads db2", "instr-w2", "rs", "reads6", 2, 100, false),
 					pj("C02/sched", "os W=2 six reads db2", "instr-w2", "os", "reads6", 2, 100, false),
+					pj("C02/sched", "rs W=2 twelve reads db2", "instr-w2", "rs", "reads12", 2, 100, false),
+					pj("C02/sched", "rs W=2 over-long read requests, two listings db2", "instr-w2", "rs", "longlen+twodirs", 2, 100, false),
+					pj("C02/sched", "os W=2 over-long read requests, two listings db2", "instr-w2", "os", "longlen+twodirs", 2, 100, false),
 				}
 			}
 			js = withPolicies(tier, js, func(j reg.Job) bool { return j.Args["server"] != "os" })
@@ -453,6 +487,8 @@ func init() {
 					pj("C18/sched", "os W=2 db3", "instr-w2", "os", "rw2", 3, 600, true),
 					pj("C18/sched", "rs W=2 db3 path kept across buffer reuse", "instr-w2", "rs", "pathkeep", 3, 600, true),
 					pj("C18/sched", "os W=2 db3 path kept across buffer reuse", "instr-w2", "os", "pathkeep", 3, 600, true),
+					pj("C18/sched", "rs W=2 db3 six/twelve reads, over-long reads", "instr-w2", "rs", "reads6+reads12+longlen", 3, 600, true),
+					pj("C18/sched", "os W=2 db3 six reads, over-long reads, two listings", "instr-w2", "os", "reads6+longlen+twodirs", 3, 600, true),
 				}
 			} else {
 				js = []reg.Job{
@@ -463,6 +499,8 @@ func init() {
 					pj("C18/sched", "os W=2 db2", "instr-w2", "os", "rwmix+rw3", 2, 100, true),
 					pj("C18/sched", "rs W=2 db2 path kept across buffer reuse", "instr-w2", "rs", "pathkeep", 2, 100, true),
 					pj("C18/sched", "os W=2 db2 path kept across buffer reuse", "instr-w2", "os", "pathkeep", 2, 100, true),
+					pj("C18/sched", "rs W=2 db2 six reads (more pages outstanding than the pool keeps), over-long reads", "instr-w2", "rs", "reads6+longlen", 2, 100, true),
+					pj("C18/sched", "os W=2 db2 six reads, over-long reads, two listings", "instr-w2", "os", "reads6+longlen+twodirs", 2, 100, true),
 				}
 			}
 			js = withPolicies(tier, js, func(j reg.Job) bool { return j.Args["server"] != "os" })
